@@ -281,7 +281,7 @@ class TreeGen:
                 self.leaves[n] = rng.choice([(-32768, 32767), (0, 32767), (-1000, 1000), (-128, 127), (-128, 3), (-32768, 2)])
             else:
                 lo = rng.randint(-3, 2)
-                self.leaves[n] = (lo, lo + rng.randint(1, 3))
+                self.leaves[n] = (lo, lo + rng.choice([0, 1, 1, 2, 2, 3, 3]))       # width 0: a leaf declared constant
 
     def key(self):
         self.k += 1
@@ -391,6 +391,19 @@ class TreeGen:
             if not isinstance(o, str) and not is_var(o):
                 return a, o
         raise RuntimeError("generator produced no compound model")
+
+
+def with_leaf_bounds(a, leaf_id, lo, hi):
+    """the same expression with every occurrence of one leaf declared with other bounds"""
+    def rebuild(x):
+        if isinstance(x, dict):
+            if x.get("c") in ("var", "str") and x.get("id") == leaf_id:
+                return {"c": "var", "id": leaf_id, "lo": lo, "hi": hi}
+            return {k: rebuild(v) for k, v in x.items() if k not in ("$twin_of",)}
+        if isinstance(x, list):
+            return [rebuild(v) for v in x]
+        return x
+    return rebuild(a)
 
 
 def twin_ast(rng, a):
@@ -514,7 +527,8 @@ def gen_interp(rng, t, total=False, allow_compound=True, in_bounds=True, ranges=
     for n, (lo, hi) in lv.items():
         if rng.random() < dens or total:
             if total or not ranges or rng.random() < 0.6:
-                c = rng.randint(lo, hi) if in_bounds or rng.random() < 0.8 else rng.choice([lo - 1, hi + 1])
+                # outside the declared bounds in 20% of the cases that allow it — in 60% for a leaf declared constant
+                c = rng.randint(lo, hi) if in_bounds or rng.random() < (0.4 if lo == hi else 0.8) else rng.choice([lo - 1, hi + 1])
                 I[n] = (c, c)
             else:
                 a = rng.randint(lo, hi)
